@@ -650,18 +650,22 @@ func evalHiddenCase(lc LayerCase, b *Batch, res *Result, distinct map[string]str
 		// Rename of an ancestor of a hidden path is refused (C11) and exempt here.
 		isAnc := false
 		if c.M == "rename" {
-			co := filepath.Clean(c.A[0])
-			for _, hp := range hs {
-				chp := filepath.Clean(hp)
-				if chp != co && withinGo(co, chp) {
-					isAnc = true
+			// either name: moving an ancestor away relocates hidden content, moving a directory
+			// onto a (missing) ancestor brings content to the hidden location (repair D21)
+			for _, nm := range []string{c.A[0], c.A[1]} {
+				co := filepath.Clean(nm)
+				for _, hp := range hs {
+					chp := filepath.Clean(hp)
+					if chp != co && withinGo(co, chp) {
+						isAnc = true
+					}
 				}
 			}
 		}
 		if isAnc {
 			res.count("hidden.oracle.rename-ancestor")
 			if len(calls) != 0 || errClass(ierr) != "hiddenPerm" {
-				viol("C11", fmt.Sprintf("HiddenFS%q.Rename(%q, %q) of an ancestor of a hidden path was not refused: %v %v", hs, c.A[0], c.A[1], ierr, calls))
+				viol("C11", fmt.Sprintf("HiddenFS%q.Rename(%q, %q) of or onto an ancestor of a hidden path was not refused: %v %v", hs, c.A[0], c.A[1], ierr, calls))
 			}
 		} else if c.M != "removeall" {
 			if len(calls) != 1 {
